@@ -107,9 +107,28 @@ NOTES = {
  'C11-error-integral-clamped-at-1e30': 'CommandPID clamps its error integral at +-1e30 ("anti-windup"): values around 1e27 and more with tiny gains',
  'C13-command-div-subnormal-multiplies': '`Command / f32` treats every |v| < f32::MIN_POSITIVE as zero and multiplies: a subnormal command relayed from side 2 of a gear train is off by ratio^2',
  'C15-failed-set-restores-last-request-over-nested-set': 'Settable::set restores the previous last request when impl_set fails, erasing a successful NESTED set made from inside impl_set',
+ 'C03-equal-differential-consistent-readings-keep-own-stamps': 'equal-trust differential whose three readings already add up exactly writes each branch back with its OWN stamp instead of the newest of the three',
+ 'C04-on-target-fast-path-keeps-old-prev-time': 'PID: two or more consecutive samples exactly on the setpoint, then a departure: the fast path does not advance the stored previous time',
+ 'C05-ewma-drops-samples-older-than-high-water-mark': 'EWMA keeps its update time across resets as a high-water mark and drops samples stamped before it (stale error / value after a reset)',
+ 'C12-maf-trim-adds-window-to-stamp': 'f32 moving average trims with `oldest + window <= now`: overflows for stamps within one window of i64::MAX',
+ 'C16-to-dyn-wraps-caller-expression-in-unsafe': 'the to_dyn! helper macro puts the caller\'s expression inside its own `unsafe` block: a crate without `unsafe` can pass `Reference::from_ptr(p)` and mint a dangling Reference',
+ 'C17-arcrwlock-shared-borrow-queues-behind-write': 'ArcRwLock borrow() first takes and drops the WRITE lock: a thread that already holds a shared borrow of the target deadlocks on its second one',
+ 'C19-std-with-micromath-uses-micromath-powf': 'with std AND micromath enabled the power function is micromath\'s approximation instead of std\'s',
+ 'C20-encoder-skips-write-when-link-already-reads-it': 'encoder wrapper skips writing its reading when the LINK already reads that datum (peer holds the same state): its own slot stays empty',
  'C19-libm-powf-whole-exponent-squaring': 'no_std+libm only: powf with a whole-number exponent by repeated squaring (dozens of ulps for large |n|, 0 for subnormal results)',
 }
 HISTORY = {
+ 'C12-maf-trim-adds-window-to-stamp': 'MISSED at both tiers: histories reached 2^62 at most; the end of the axis where `stamp + window` overflows (and the original `stamp - window` does not) was never visited. '
+   '2 % of the node runs now lie within seven minutes of i64::MAX (steps up to 1 s; moving-average windows from nanoseconds to hours). Caught at quick tier since.',
+ 'C20-encoder-skips-write-when-link-already-reads-it': 'MISSED at both tiers: encoder readings and the states fed to the peer were drawn independently, so the link never already read the datum the encoder '
+   'delivered. 12 % of the readings are now also written, identically, to the feeding terminal just before. Caught at quick tier since (`encoder_relay`: own slot empty).',
+ 'C17-arcrwlock-shared-borrow-queues-behind-write': 'MISSED by C17 at both tiers (C16\'s Miri program, extended the same hour, reports the deadlock): no history ever held two shared borrows of one target at once. The '
+   'reference world has an operation for that now (RR: through two handles, nested, for every variant but the Mutex-backed ones), and the Miri program a directed case. Caught by C17/quick since (`C17|hang|refs`).',
+ 'C16-to-dyn-wraps-caller-expression-in-unsafe': 'MISSED at both tiers: the change alters no program that compiled before, it admits new ones. A NEGATIVE compile probe was added: `callers/unsafe_probe` contains no '
+   '`unsafe` and passes `Reference::from_ptr(p)` to `to_dyn!`; it must be rejected with E0133, and a successful build is `C16|to_dyn_admits_unsafe_argument|compile`. Caught at quick tier since. (The author\'s '
+   'demonstration itself compiles only with the change.)',
+ 'C19-std-with-micromath-uses-micromath-powf': 'MISSED at both tiers: no build enabled std together with a second float back end. Two builds were added (std + micromath, std + libm; ten in all), compared strictly with '
+   'the std reference. Caught at quick tier since.',
  'C02-expirer-holds-input-borrow-while-reading-clock': 'MISSED at both tiers: every clock of the stream world was a free-standing scripted object. One expirer / substitute-value node in eight now takes its '
    'time from a sensor\'s own timestamps through the crate\'s TimeGetterFromGetter, preferably the sensor it reads (with shared lock-backed leaf References the clock then locks the object '
    'the node is still holding). Caught at quick tier since (`C02|hang|comb`). Random plans also draw NaN, +-inf, -0.0, f32::MAX and subnormal leaf values now.',
